@@ -40,11 +40,11 @@ impl Prop for C09 {
         Describe {
             level: "exploration",
             rule: "each case = one seeded run of two complete litep2p nodes (probe user protocols with keep-alive, optionally ping and identify which must not prolong the connection) on SimNet with a materialised activity script on the virtual clock: substream opens by either side at chosen instants (before / exactly at / after the expiry), hold times from 0 to several T, one or two overlapping connections, received substreams optionally half-closed (write side shut down, object kept for reading) for the hold time; non-trivial = scheduler had >=1 choice point; distinct = distinct trace hash".into(),
-            real: vec!["Litep2p", "TransportManager", "TcpTransport/TcpConnection (permit handling)", "ProtocolSet", "TransportService + KeepAliveTracker", "ConnectionHandle/Permit", "ping", "identify", "Noise", "yamux"],
+            real: vec!["Litep2p", "TransportManager", "TcpTransport/TcpConnection (permit handling)", "WebSocketTransport/WebSocketConnection + tokio-tungstenite (runs with the second transport)", "ProtocolSet", "TransportService + KeepAliveTracker", "ConnectionHandle/Permit", "ping", "identify", "NotificationProtocol and RequestResponseProtocol (built-in protocols mode)", "Noise", "yamux"],
             stub: vec!["socket layer (SimNet, no faults in this scenario)", "clock (std Instant and tokio timers on one virtual clock)", "task scheduler (seeded)"],
             assumptions: vec![
                 "the closing side is node 1 by construction (node 2: keep-alive one hour)",
-                "the exact expected instant is computed from probe protocols only; built-in keep-alive protocols (notifications, request-response) are covered by the safety half through C11/C13 scenarios",
+                "probe mode: the exact expected instant is computed from the probes' own records; built-in protocols mode (a quarter of the runs): the activity instants of the real notification / request-response protocols are bracketed between a command and the outcome the user sees, the oracle is two-sided with that bracket (see DESIGN.md C09)",
                 "tolerance: 3 ms early (timer granularity 1 ms), 150 ms late (ping/identify substream negotiation in flight at the expiry instant holds an opening permit for a few round trips)",
             ],
         }
